@@ -908,7 +908,7 @@ Do(t, ins, me) ==
     [] ins.op = "wakeref"  -> RawWake(t, ins, me, FALSE)
     [] ins.op = "br"       -> Br(t, ins, me)
     [] ins.op = "panic"    -> Panic(t, ins, me)
-    [] ins.op \in {"nop", "stopx", "explore", "skipb", "aguard", "rxhold", "rxrel"} -> Nop(t, ins, me)
+    [] ins.op \in {"nop", "stopx", "explore", "skipb", "aguard", "rxhold", "rxrel", "stack"} -> Nop(t, ins, me)
 
 Live(t) == end = "run" /\ st[t] = "run" /\ pc[t] <= Len(Code(t))
 
